@@ -119,10 +119,9 @@ def genS : Nat → R → S × R
 
 def qualToks : List Tk := [("CONST", "const"), ("VOLATILE", "volatile"), ("RESTRICT", "restrict")]
 
-/-- a named declarator without grouping parentheses: stars with qualifiers, then suffixes -/
+/-- a named declarator: stars with qualifiers, suffixes, and (sometimes) a parenthesised inner
+declarator with suffixes of its own (`(*name[2])()` ...) -/
 def genD (x : String) (s : R) : D × R :=
-  let nsuf := sel s 3
-  let s1 := lcg s
   let rec suf : Nat → D → R → D × R
     | 0, d, s => (d, s)
     | k+1, d, s =>
@@ -130,12 +129,19 @@ def genD (x : String) (s : R) : D × R :=
       else
         let dim := if sel s 2 == 0 then (none, lcg s) else (let r := genX 2 1 (lcg s); (some r.1, r.2))
         suf k (D.arr d dim.1) dim.2
-  let base := suf nsuf (D.name x) s1
+  let mkStars (n : Nat) (s : R) : List (List Tk) :=
+    (List.range n).map fun i => if sel (s + i * 7919) 3 == 0 then [pick qualToks (s + i)] else []
+  let base := suf (sel s 3) (D.name x) (lcg s)
   let nstar := sel base.2 3
   let s2 := lcg base.2
-  if nstar == 0 then (base.1, s2) else
-    let stars : List (List Tk) := (List.range nstar).map fun i => if sel (s2 + i * 7919) 3 == 0 then [pick qualToks (s2 + i)] else []
-    (D.ptr stars base.1, lcg s2)
+  let inner : D := if nstar == 0 then base.1 else D.ptr (mkStars nstar s2) base.1
+  let s3 := lcg s2
+  if sel s3 4 == 0 then
+    -- group it and continue outside the parentheses
+    let outer := suf (1 + sel (lcg s3) 2) (D.paren inner) (lcg (lcg s3))
+    let s4 := lcg outer.2
+    if sel s4 3 == 0 then (D.ptr (mkStars 1 s4) outer.1, lcg s4) else (outer.1, lcg s4)
+  else (inner, s3)
 
 def typeKw : List (List Tk) :=
   [[("INT", "int")], [("UNSIGNED", "unsigned"), ("INT", "int")], [("LONG", "long"), ("UNSIGNED", "unsigned")], [("CHAR", "char")],
